@@ -201,6 +201,35 @@ func (e *Engine) strIntrinsic(fn *ssa.Function, full string, args []Value) (Valu
 			r = tOr(r, hasPrefixTerm(StrVal{bytes: s.bytes[i:]}, sub))
 		}
 		return r, true
+	case "strings.ContainsAny", "strings.IndexAny":
+		// ASCII character sets only (a set with a multi-byte character is left to the library's own code)
+		noAtom(args[0], args[1])
+		sv, chars := args[0].(StrVal), args[1].(StrVal)
+		for _, c := range chars.bytes {
+			if !c.konst || c.iv >= 128 {
+				return nil, false
+			}
+		}
+		member := func(b *Term) *Term {
+			r := tFalse
+			for _, c := range chars.bytes {
+				r = tOr(r, tEq(b, c))
+			}
+			return r
+		}
+		if full == "strings.ContainsAny" {
+			r := tFalse
+			for _, b := range sv.bytes {
+				r = tOr(r, member(b))
+			}
+			return r, true
+		}
+		for i, b := range sv.bytes {
+			if e.decide(member(b)) {
+				return mkInt(int64(i)), true
+			}
+		}
+		return mkInt(-1), true
 	case "strings.Split":
 		s, sep := args[0].(StrVal), args[1].(StrVal)
 		noAtom(s, sep)
